@@ -97,4 +97,47 @@ theorem phiCpp_correct (P : PhiTop) (x a : ℤ) (hP : TopOK P x.toNat a.toNat) (
     rw [htel]
     simp only [phiTinyMaxA]
 
+/-- `is_pix(x, a)` is sound: when it answers true, `pi_[x] - a + 1` is φ(x, a) (`PiTable` contract: `pi_[v] = π(v)`
+    for `v < pi_.size()`); used at phi.cpp:109-110, 153-155, 174-175 -/
+theorem isPix_sound {E : PhiEnv} {A : ℕ} (hE : BaseOK E A) {x a : ℕ} (ha1 : 1 ≤ a) (haA : a + 1 ≤ A) (hx : 1 ≤ x)
+    (hpa : p a ≤ x) (h : E.isPix x a = true) : ((E.piTab x : ℤ) - a + 1) = phi x a := by
+  rw [isPix_iff, hE.prime (a + 1) (by omega) haA] at h
+  have := PhiFacts.phi_eq_pi' hx (PhiFacts.le_pi_of_p_le ha1 hpa) (by rw [sq]; exact h.2)
+  have hc : (phi x a : ℤ) + (a : ℤ) = (π x : ℤ) + 1 := by exact_mod_cast this
+  rw [hE.pi _ h.1]; linarith
+
+/-- the `uint64_t` arithmetic of the cross-off loop (phi.cpp:255-259) stays far below 2^64 and every index is
+    inside the array, for the geometry the constructor produces and an `int32_t` prime -/
+theorem crossOff_no_overflow {maxX S prime n : ℕ} (hmax : maxX + 1 = 240 * S) (hcap : 240 * S ≤ 2 ^ 32)
+    (hp : prime < 2 ^ 31) (hn : n ≤ maxX) :
+    prime * prime < 2 ^ 64 ∧ prime * 2 < 2 ^ 64 ∧ n + prime * 2 < 2 ^ 64 ∧ n / 240 < S := by
+  refine ⟨by nlinarith, by omega, by omega, by omega⟩
+
+/-- the invariant spelled out: bits and counts of `sieve_[l][w]` for every sieved level -/
+theorem cache_bits_counts {st : State} (h : Inv st) {l w : ℕ} (h9 : 9 ≤ l) (hl : l ≤ st.maxACached)
+    (hw : w < st.maxXSize) :
+    (∀ k, k < 64 → ((bitsAt (st.sieve.getD l #[]) w).testBit k = true ↔
+        ∀ j, 1 ≤ j → j ≤ l → ¬ p j ∣ 240 * w + wheelNum k)) ∧
+    cntAt (st.sieve.getD l #[]) w = phi (240 * w - 1) l ∧ cntAt (st.sieve.getD l #[]) w < 2 ^ 32 := by
+  obtain ⟨c1, c2⟩ := count_no_truncation h h9 hl hw
+  rcases h.rows with ⟨_, hm0⟩ | ⟨_, _, hrows⟩
+  · omega
+  · refine ⟨fun k hk => ?_, ?_, by rw [c1]; exact c2⟩
+    · rw [(hrows l h9 hl).bits w hw k hk, surv_iff (by omega)]
+    · rw [c1]
+      rcases Nat.eq_zero_or_pos w with rfl | hpos
+      · simp [PhiFacts.phi_zero_left]
+      · rw [phi_eq_count (by omega), show 240 * w - 1 + 1 = 240 * w by omega]
+
+/-- the L2 constructor yields the geometry of the L1 model `phiCacheGeometry` -/
+theorem new_geometry_eq (a est : ℕ) :
+    ((State.new a est).maxX, (State.new a est).maxA) = phiCacheGeometry a est := by
+  unfold State.new phiCacheGeometry ceilDiv
+  dsimp only
+  have e : ∀ m : ℕ, m + 240 - 1 = m + 239 := fun m => by omega
+  simp only [e, sizeofSieveT]
+  split
+  · rfl
+  · split <;> rfl
+
 end Pc.PhiCacheProofs
